@@ -369,7 +369,7 @@ func (p c19) e2e(c *core.Ctx) {
 	h := world.NewHolder(world.BuildStruct(fields))
 	r := world.Start(&world.Scenario{}, world.Options{Extra: []any{h}})
 	c.Count("e2e_starts", 1)
-	if r.Outcome() == "panic" || r.Outcome() == "diverged" {
+	if abnormal(r.Outcome()) {
 		c.Fail("", fmt.Sprintf("holder with tag %s: %s", tag, r.OutcomeDetail()), map[string]any{"tag": tag})
 		return
 	}
